@@ -208,6 +208,13 @@ func (a *Act) callFn1(st *State, callee *ssa.Function, args []Val, env []Val, po
 	if a.canInline(callee, a.stack) && len(a.stack) < 10 {
 		return a.inline(st, callee, args, env, pos)
 	}
+	// a function of another module that receives only plain values (numbers, strings, times, decimals,
+	// pointers to that module's own opaque types) cannot reach any object of the repository: no heap
+	// effect, an unconstrained well-formed result
+	if !a.canInline(callee, a.stack) && externalValueOnly(callee) {
+		a.u.Trusted["external function over plain values: "+a.u.E.KeyOf(callee)] = true
+		return a.freshResult(st, sig)
+	}
 	// a known function outside the contract set that is not handed any function value cannot reach the
 	// callbacks of the function under verification: its (unknown) effect spares the event trace
 	if !sigTakesFunc(callee.Signature) || !a.top.hasDynamicCallbacks() {
@@ -656,12 +663,22 @@ func (a *Act) sortCall(st *State, callee *ssa.Function, com *ssa.CallCommon, pos
 	a.u.Trusted["intrinsic "+intrinsicKey(callee)+" (permutes the slice in place; comparator assumed effect-free)"] = true
 	s := a.term(sv)
 	et := types.Unalias(sv.Type()).Underlying().(*types.Slice).Elem()
+	// the result is a permutation of the old contents: new[i] = old[perm[i]] with perm a bijection on [0, len)
+	perm := a.u.D.Fresh("perm", "(Array Int Int)")
+	inv := a.u.D.Fresh("perminv", "(Array Int Int)")
+	n := app("slen", s)
+	a.u.Fact(fmt.Sprintf("(forall ((i Int)) (! (=> (and (<= 0 i) (< i %s)) (and (<= 0 (select %s i)) (< (select %s i) %s) (= (select %s (select %s i)) i))) :pattern ((select %s i))))", n, perm, perm, n, inv, perm, perm))
+	a.u.Fact(fmt.Sprintf("(forall ((j Int)) (! (=> (and (<= 0 j) (< j %s)) (and (<= 0 (select %s j)) (< (select %s j) %s) (= (select %s (select %s j)) j))) :pattern ((select %s j))))", n, inv, inv, n, perm, inv, inv))
 	for _, lh := range a.elemHeaps(et) {
 		old := st.heap(lh.name, lh.sort)
 		nh := a.u.FreshHeap(lh.name, lh.sort)
-		a.u.Fact(fmt.Sprintf("(forall ((r Ref)) (! (=> (or (= (sarr %s) nil) (not (= (rid r) (rid (sarr %s))))) (= (select %s r) (select %s r))) :pattern ((select %s r))))", s, s, nh, old, nh))
+		// only the cells s[0..len) change: every other reference - other arrays, other paths in the same
+		// allocation, indices outside the slice - keeps its value
+		a.u.Fact(fmt.Sprintf("(forall ((r Ref)) (! (=> (not (and (= (rid r) (rid (sarr %s))) ((_ is pelem) (rpath r)) (= (pe_rest (rpath r)) (rpath (sarr %s))) (<= (soff %s) (pe_idx (rpath r))) (< (pe_idx (rpath r)) (+ (soff %s) %s)))) (= (select %s r) (select %s r))) :pattern ((select %s r))))", s, s, s, s, n, nh, old, nh))
+		a.u.Fact(fmt.Sprintf("(forall ((i Int)) (! (=> (and (<= 0 i) (< i %s)) (= (select %s (saddr %s i)) (select %s (saddr %s (select %s i))))) :pattern ((select %s (saddr %s i)))))", n, nh, s, old, s, perm, nh, s))
 		st.setHeap(lh.name, lh.sort, nh)
 	}
+	a.top.lastPerm, a.top.lastPermInv = perm, inv
 	return Val{}, true
 }
 
@@ -901,4 +918,38 @@ func mayCarryFunc(t types.Type, depth int) bool {
 		return u.NumMethods() == 0
 	}
 	return false
+}
+
+func externalValueOnly(callee *ssa.Function) bool {
+	pk := pkgOf(callee)
+	if pk == "" || strings.HasPrefix(pk, ModulePath) {
+		return false
+	}
+	plain := func(t types.Type) bool {
+		switch u := types.Unalias(t).Underlying().(type) {
+		case *types.Basic:
+			return true
+		case *types.Struct:
+			// external value types (time.Time, decimal.Decimal, ...)
+			if n, ok := types.Unalias(t).(*types.Named); ok && n.Obj().Pkg() != nil && !strings.HasPrefix(n.Obj().Pkg().Path(), ModulePath) {
+				return true
+			}
+		case *types.Pointer:
+			if n, ok := types.Unalias(u.Elem()).(*types.Named); ok && n.Obj().Pkg() != nil && !strings.HasPrefix(n.Obj().Pkg().Path(), ModulePath) {
+				_, isStruct := n.Underlying().(*types.Struct)
+				return isStruct
+			}
+		}
+		return false
+	}
+	sig := callee.Signature
+	if sig.Recv() != nil && !plain(sig.Recv().Type()) {
+		return false
+	}
+	for i := 0; i < sig.Params().Len(); i++ {
+		if !plain(sig.Params().At(i).Type()) {
+			return false
+		}
+	}
+	return true
 }
